@@ -113,6 +113,14 @@ func goTypeOK(format string, v interface{}) bool {
 }
 
 func inBounds(ch *characteristic.Characteristic, v interface{}) bool {
+	if iv, ok := v.(int); ok { // exact for integers (float64 cannot tell 2^53+3 from 2^53+4)
+		if mn, ok := ch.MinValue.(int); ok && iv < mn {
+			return false
+		}
+		if mx, ok := ch.MaxValue.(int); ok && iv > mx {
+			return false
+		}
+	}
 	f, ok := num(v)
 	if !ok {
 		return true
